@@ -13,7 +13,7 @@ OUT="$WT/out"; mkdir -p "$OUT"
 REPORT="$VERIF_DIR/seeded/REGRESSION.txt"
 : > "$REPORT.tmp"
 for d in "$VERIF_DIR"/seeded/$GLOB/; do
-  name=$(basename "$d"); id=${name:0:3}
+  name=$(basename "$d"); id=${name:0:3}; [ -f "$d/meta.json" ] && id=$(jq -r ".caught_by[0] // \"$id\"" "$d/meta.json")
   [ -f "$d/patch.diff" ] || continue
   git -C "$WT/wt" checkout -q -- . && git -C "$WT/wt" clean -fdq
   if ! git -C "$WT/wt" apply "$d/patch.diff" 2>/dev/null; then echo "$name PATCH-DOES-NOT-APPLY" >> "$REPORT.tmp"; continue; fi
